@@ -27,93 +27,118 @@ func runOne(sp solverSpec, file string, timeoutMs int) (string, int64) {
 	return res, time.Since(t0).Milliseconds()
 }
 
-// solve discharges every VC as its own query: first on the primary solver with
-// a short time limit, then — if that did not settle it — on the whole portfolio
-// with the full limit. With allSolvers every VC is run on all back ends and a
-// disagreement is reported.
+// solveOne discharges one VC: first on the primary solver with a short time
+// limit, then — if that did not settle it — on the whole portfolio with the
+// full limit, then once more with three times the limit. With allSolvers the VC
+// is run on all back ends and a disagreement is reported.
+func (r *FnRun) solveOne(o *OblInst, base string, limitMs int, allSolvers bool) {
+	qf := fmt.Sprintf("%s.vc%d.smt2", base, o.Seq)
+	os.WriteFile(qf, []byte(r.standalone(o, false)), 0o644)
+	if o.Cover {
+		// vacuity guard: anything but a proof of infeasibility is fine
+		res, ms := runOne(solvers[0], qf, 2000)
+		o.Result, o.Solver, o.TimeMs = res, solvers[0].name, ms
+		if res == "unsat" && o.PreCtx != nil {
+			// infeasible after the call: was it feasible before?
+			os.WriteFile(qf, []byte(r.standaloneCtx(o.PreCtx)), 0o644)
+			if pr, _ := runOne(solvers[0], qf, 2000); pr != "unsat" {
+				if pr2, _ := runOne(solvers[2], qf, 2000); pr2 != "unsat" {
+					o.Vacuous = true
+				}
+			}
+		}
+		os.Remove(qf)
+		return
+	}
+	first := limitMs / 4
+	if first < 1500 {
+		first = 1500
+	}
+	res, ms := runOne(solvers[0], qf, first)
+	o.Result, o.Solver, o.TimeMs = res, solvers[0].name, ms
+	if res == "unsat" && !allSolvers {
+		if os.Getenv("VCGO_KEEPALL") == "" {
+			os.Remove(qf)
+		}
+		return
+	}
+	if o.Kind == "GATE" {
+		// a gate that does not go through at once is simply not used
+		os.Remove(qf)
+		return
+	}
+	type ans struct {
+		res string
+		ms  int64
+		sp  solverSpec
+	}
+	ch := make(chan ans, len(solvers))
+	n := 0
+	for si, sp := range solvers {
+		if si == 0 && res != "unknown" && !allSolvers {
+			continue
+		}
+		n++
+		go func(sp solverSpec) {
+			rr, mm := runOne(sp, qf, limitMs)
+			ch <- ans{rr, mm, sp}
+		}(sp)
+	}
+	agreed := res
+	for i := 0; i < n; i++ {
+		a := <-ch
+		if a.res == "unknown" {
+			continue
+		}
+		if agreed == "unknown" {
+			agreed = a.res
+			o.Solver, o.TimeMs = a.sp.name, a.ms
+		} else if agreed != a.res {
+			r.note("SOLVER DISAGREEMENT on %s: %s vs %s (%s)", o.Name, agreed, a.res, a.sp.name)
+			// a disagreement is never counted as discharged
+			agreed = "sat"
+		} else if a.res == "unsat" && allSolvers {
+			o.Solver += "+" + a.sp.name
+		}
+	}
+	if agreed == "unknown" {
+		// no answer within the limit (possibly because the machine was busy):
+		// one more attempt with three times the limit
+		if rr, mm := runOne(solvers[0], qf, 3*limitMs); rr != "unknown" {
+			agreed = rr
+			o.Solver, o.TimeMs = solvers[0].name, mm
+		}
+	}
+	o.Result = agreed
+	if o.Result == "unsat" {
+		os.Remove(qf)
+	}
+}
+
+// solve discharges every VC as its own query, in parallel. Whole clauses
+// (gates) go first; the conjuncts of a clause whose gate was proved need no
+// query of their own.
 func (r *FnRun) solve(workDir string, limitMs int, allSolvers bool) {
 	base := filepath.Join(workDir, sanitize(r.name))
 	var wg sync.WaitGroup
-	for _, o := range r.obls {
-		if o.Static {
-			continue
+	run := func(pick func(o *OblInst) bool) {
+		for _, o := range r.obls {
+			if o.Static || !pick(o) {
+				continue
+			}
+			wg.Add(1)
+			go func(o *OblInst) {
+				defer wg.Done()
+				r.solveOne(o, base, limitMs, allSolvers)
+			}(o)
 		}
-		wg.Add(1)
-		go func(o *OblInst) {
-			defer wg.Done()
-			qf := fmt.Sprintf("%s.vc%d.smt2", base, o.Seq)
-			os.WriteFile(qf, []byte(r.standalone(o, false)), 0o644)
-			want := "unsat"
-			if o.Cover {
-				// vacuity guard: anything but a proof of infeasibility is fine
-				res, ms := runOne(solvers[0], qf, 2000)
-				o.Result, o.Solver, o.TimeMs = res, solvers[0].name, ms
-				os.Remove(qf)
-				return
-			}
-			first := limitMs / 4
-			if first < 1500 {
-				first = 1500
-			}
-			res, ms := runOne(solvers[0], qf, first)
-			o.Result, o.Solver, o.TimeMs = res, solvers[0].name, ms
-			if res == want && !allSolvers {
-				if os.Getenv("VCGO_KEEPALL") == "" {
-					os.Remove(qf)
-				}
-				return
-			}
-			// portfolio, in parallel
-			type ans struct {
-				res string
-				ms  int64
-				sp  solverSpec
-			}
-			ch := make(chan ans, len(solvers))
-			n := 0
-			for si, sp := range solvers {
-				if si == 0 && res != "unknown" && !allSolvers {
-					continue
-				}
-				n++
-				go func(sp solverSpec) {
-					rr, mm := runOne(sp, qf, limitMs)
-					ch <- ans{rr, mm, sp}
-				}(sp)
-			}
-			agreed := res
-			for i := 0; i < n; i++ {
-				a := <-ch
-				if a.res == "unknown" {
-					continue
-				}
-				if agreed == "unknown" {
-					agreed = a.res
-					o.Solver, o.TimeMs = a.sp.name, a.ms
-				} else if agreed != a.res {
-					r.note("SOLVER DISAGREEMENT on %s: %s vs %s (%s)", o.Name, agreed, a.res, a.sp.name)
-					// a refutation with a model is the stronger evidence; a
-					// disagreement is never counted as discharged
-					agreed = "sat"
-				} else if a.res == "unsat" && allSolvers {
-					o.Solver += "+" + a.sp.name
-				}
-			}
-			if agreed == "unknown" {
-				// no answer within the limit (possibly because the machine was
-				// busy): one more attempt with three times the limit
-				for _, sp := range solvers[:1] {
-					if rr, mm := runOne(sp, qf, 3*limitMs); rr != "unknown" {
-						agreed = rr
-						o.Solver, o.TimeMs = sp.name, mm
-					}
-				}
-			}
-			o.Result = agreed
-			if o.Result == "unsat" {
-				os.Remove(qf)
-			}
-		}(o)
+		wg.Wait()
 	}
-	wg.Wait()
+	run(func(o *OblInst) bool { return o.Gate == nil })
+	for _, o := range r.obls {
+		if o.Gate != nil && o.Gate.Result == "unsat" && !allSolvers {
+			o.Result, o.Solver, o.TimeMs = "unsat", o.Gate.Solver+"(whole clause)", 0
+		}
+	}
+	run(func(o *OblInst) bool { return o.Gate != nil && o.Result == "" })
 }
